@@ -525,6 +525,51 @@ def rule_r5(ck, prog, CB):
         cb = f.params[0]['id'] if f.params else None
         visits = {}
         why = None
+        direct = [loops_over(f, lambda ap, fld=fld: ap == ('this', fld)) for fld in ('first_', 'second_')]
+        if not direct[0] and not direct[1]:
+            # the two pieces walked through a small local table: `const span pieces[] = {first_, second_}; for (piece : pieces) for (value : piece)`
+            order = None
+            for dn in f.nodes:
+                if dn['k'] != 'declstmt':
+                    continue
+                for d in dn['decls']:
+                    init = f.nodes[d['init']] if d.get('init') is not None and d['init'] >= 0 else None
+                    if init is not None and init['k'] == 'initlist':
+                        names_ = []
+                        for ch in init.get('ch', []):
+                            ap = None
+                            for i in list(f.subtree(ch)) + [ch]:
+                                if f.nodes[i]['k'] == 'member' and f.nodes[i].get('name') in ('first_', 'second_'):
+                                    ap = f.nodes[i]['name']
+                            names_.append(ap)
+                        if set(names_) == {'first_', 'second_'} and len(names_) == 2:
+                            order = (names_, d['id'])
+            outer = [n for n in f.nodes if n['k'] == 'forrange' and order and strip_casts(f, n['range']).get('id') == order[1]]
+            inner = [n for n in f.nodes if n['k'] == 'forrange' and outer and n['i'] in f.subtree(outer[0]['body']) and strip_casts(f, n['range']).get('id') == outer[0].get('var')]
+            if order and len(outer) == 1 and len(inner) == 1:
+                body = set(f.subtree(inner[0]['body']))
+                vis = [p for p in g.points if p.f is f and p.n is not None and p.n['i'] in body and p.n['k'] == 'call' and
+                       p.n.get('obj') is not None and f.nodes[p.n['obj']]['k'] == 'ref' and f.nodes[p.n['obj']].get('id') == cb]
+
+                def stop_edge2(a, b, lab, vis=vis):
+                    if not lab or not isinstance(lab[0], int):
+                        return False
+                    core, pol = norm_cond(lab[1], lab[0])
+                    truth = lab[2] if pol else (not lab[2])
+                    return truth is False and any(v.n['i'] == core or core in f.subtree(v.n['i']) or v.n['i'] in f.subtree(core) for v in vis)
+                r1 = loop_visits_every_element(g, f, inner[0], vis, allowed_exit=stop_edge2)
+                outer_left = [i for i in f.subtree(outer[0]['body']) if f.nodes[i]['k'] in ('break', 'continue') and i not in body]
+                if order[0] != ['first_', 'second_']:
+                    why = 'the table of pieces lists second_ before first_: elements are delivered out of queue order'
+                elif r1:
+                    why = 'loop over a piece: %s' % r1
+                elif outer_left:
+                    why = 'the loop over the pieces can skip a piece'
+                ck.verdict(why is None, 'C11.R5', f, 'foreach-visits-first-then-second', None,
+                           'the pieces {first_, second_} are walked in that order, every element of each, stopped only by the callback' if why is None else why)
+                continue
+            ck.inconclusive('C11.R5', f, 'foreach-visits-first-then-second', None, 'ForEach does not loop over first_ and second_ directly (nor over a table of the two): shape not recognised')
+            continue
         for fld in ('first_', 'second_'):
             loops = loops_over(f, lambda ap, fld=fld: ap == ('this', fld))
             if len(loops) != 1:
